@@ -6,8 +6,8 @@ from harness.core import cbool, clist, copt, cz, czlist
 ID = "C15"
 MODEL_TARGETS = ["C15/Cases.vo"]
 PROOF_TARGETS = ["C15/Lemmas.vo", "C15/Proofs.vo", "C15/Long.vo", "C15/Paths.vo", "C15/Main.vo", "C15/Layout.vo",
-                 "C15/History.vo"]
-OBLIGATION_FILES = []
+                 "C15/History.vo", "C15/Prims.vo", "C15/Gen.vo", "C15/Bridge.vo"]
+OBLIGATION_FILES = ["C15/Bridge.v"]
 PROPS_FILE = "C15/Props.v"
 SHARD = 120
 RULE = ("every typed conversion path of length 1..3 over the five containers (nested / 3-D / "
@@ -42,6 +42,12 @@ MODELLED = [
     "column names must be distinct (and all str or all int): duplicate labels are not modelled",
 ]
 NOT_RUNNABLE = []
+
+
+def translate(repo):
+    """build/coq/C15/Gen.v: the conversion functions regenerated from data_processing.py"""
+    from translator.panel_c15 import translate as tr
+    return tr(repo)
 
 
 # ------------------------------------------------------------------------------------------------
